@@ -557,6 +557,27 @@ fn handle(line: &str) -> String {
             else if ts.iter().any(|t| *t > sd) { format!("late {:?}", ts).replace(' ', "") }
             else { format!("ok {:?}", ts).replace(' ', "") }
         }
+        "fileopts_flags" => {
+            // <method> <method>: apply both flag methods, build a package with that file, read the flags back
+            let apply = |o: rpm::FileOptionsBuilder, m: &str| match m {
+                "is_doc" => o.is_doc(), "is_config" => o.is_config(), "is_config_noreplace" => o.is_config_noreplace(), "is_ghost" => o.is_ghost(),
+                "is_license" => o.is_license(), "is_readme" => o.is_readme(), _ => o,
+            };
+            let flag = |m: &str| match m {
+                "is_doc" => rpm::FileFlags::DOC, "is_config" => rpm::FileFlags::CONFIG, "is_config_noreplace" => rpm::FileFlags::CONFIG | rpm::FileFlags::NOREPLACE,
+                "is_ghost" => rpm::FileFlags::GHOST, "is_license" => rpm::FileFlags::LICENSE, "is_readme" => rpm::FileFlags::README, _ => rpm::FileFlags::empty(),
+            };
+            let src = std::env::temp_dir().join(format!("rpm-native-replay-src-{}", std::process::id()));
+            std::fs::write(&src, b"x").unwrap();
+            let o = apply(apply(rpm::FileOptions::new("/x"), p[1]), p[2]);
+            let r = rpm::PackageBuilder::new("n", "1", "MIT", "noarch", "s").compression(rpm::CompressionType::None).with_file(&src, o).and_then(|b| b.build());
+            let _ = std::fs::remove_file(&src);
+            match r.and_then(|pkg| pkg.metadata.get_file_entries()) {
+                Ok(v) if v.len() == 1 && v[0].flags == (flag(p[1]) | flag(p[2])) => "same".to_string(),
+                Ok(v) => format!("differs: {:?}", v.first().map(|f| f.flags.bits())),
+                Err(e) => format!("err {:?}", e).replace(' ', "_"),
+            }
+        }
         "wsink" => {
             // <k> <fail_at> <intr_at> <package|metadata>: write a freshly built package into a scripted sink; every failure position is tried
             let k: usize = p[1].parse().unwrap_or(0);
